@@ -144,6 +144,7 @@ def gen_csv_case(r) -> Dict[str, Any]:
         # the optional knobs: another field separator handed to the reader through dict_reader_kwargs, and (Yahoo) the
         # row parser's sanitize switch, which repairs rows whose high / low do not enclose open and close
         "delimiter": r.choice([",", ",", ",", ";", "\t"]), "sanitize": cls == "yahoo" and r.random() < 0.35,
+        "reuse": r.choice([0, 0, 0, 0, 1, 3]),
     }
 
 
@@ -238,6 +239,18 @@ def run_csv_case(case: Dict[str, Any], res: ShardResult, tmpdir: str) -> None:
 
     async def drive():
         nonlocal raised
+        if case.get("reuse"):
+            # the same source object served an earlier run that stopped before the file was exhausted
+            await src.initialize()
+            try:
+                for _ in range(case["reuse"]):
+                    if src.pop() is None:
+                        break
+            except Exception:
+                pass
+            finally:
+                await src.finalize()
+            res.count("csv_sources_reused")
         await src.initialize()
         try:
             while True:
